@@ -29,9 +29,10 @@ fn partial_encode(
     subsets_and_bytes: &[(&ArraySubset, ArrayBytes<'_>)],
     options: &super::CodecOptions,
 ) -> Result<(), super::CodecError> {
-    // Read the entire chunk
+    // Read the entire chunk: the input/output handles hold the encoded representation of this codec
     let chunk_shape = decoded_representation.shape_u64();
-    let array_subset_all = ArraySubset::new_with_shape(chunk_shape.clone());
+    let encoded_representation = codec.encoded_representation(decoded_representation)?;
+    let array_subset_all = ArraySubset::new_with_shape(encoded_representation.shape_u64());
     #[cfg(feature = "async")]
     let encoded_value = if _async {
         input_handle
